@@ -107,8 +107,10 @@ fn(U + "parse_socket_addr", params={"family": "int", "address": "tuple(str;int) 
    requires=[("addr.pre.kernel-shape", "implies(family == socket.AF_INET, len(address) == 2) and implies(family == socket.AF_INET6, len(address) == 4)")],
    ensures=[("C01.addr.host-port", "implies(family == socket.AF_INET or family == socket.AF_INET6, result is not None and len(result) == 2 and result[0] == address[0] and result[1] == address[1])", "C01"),
             ("C01.addr.other-family", "implies(family != socket.AF_INET and family != socket.AF_INET6, result is None)", "C01")],
-   model_opts={"native_args": lambda rng: {"family": rng.choice([__import__("socket").AF_INET, __import__("socket").AF_INET6, __import__("socket").AF_UNIX]),
-                                           "address": rng.choice([("10.0.0.1", 80), ("::1", 8080, 0, 0), ("fe80::1", 1, 7, 3), "/tmp/sock"])},
+   # (family, address) pairs as the kernel returns them (the precondition above)
+   model_opts={"native_args": lambda rng: rng.choice([{"family": __import__("socket").AF_INET, "address": ("10.0.0.1", 80)}, {"family": __import__("socket").AF_INET, "address": ("0.0.0.0", 0)},
+                                                      {"family": __import__("socket").AF_INET6, "address": ("::1", 8080, 0, 0)}, {"family": __import__("socket").AF_INET6, "address": ("fe80::1", 1, 7, 3)},
+                                                      {"family": __import__("socket").AF_UNIX, "address": "/tmp/sock"}]),
                "native_oracle": lambda args, result, exc=None: exc is None and (
                    result == args["address"][:2] if args["family"] in (__import__("socket").AF_INET, __import__("socket").AF_INET6) and isinstance(args["address"], tuple)
                    else (result is None if args["family"] == __import__("socket").AF_UNIX else True)),
